@@ -27,9 +27,9 @@
   (string-unfold (lambda (i) (= i len)) proc (lambda (i) (+ i 1)) 0))
 
 (define (string->list/cursors str . o)
-  (let ((start (if (pair? o) (car o) (string-cursor-start str)))
+  (let ((start (if (pair? o) (cursor-arg str (car o)) (string-cursor-start str)))
         (end (if (and (pair? o) (pair? (cdr o)))
-                 (cadr o)
+                 (cursor-arg str (cadr o))
                  (string-cursor-end str))))
     (let lp ((i end) (res '()))
       (if (string-cursor<=? i start)
